@@ -28,6 +28,7 @@ type prep struct {
 	u0, u1, stranger neotest.Signer
 	u0k, u1k         *keys.PrivateKey
 	admk             *keys.PrivateKey // appointed admin of own.com (not its owner)
+	nonotary         util.Uint160     // a second NeoFS contract, deployed with Notary disabled
 	pre              map[string]func() error
 	node0, node1     *keys.PrivateKey // node0: candidate in both lists and in the previous map; node1: fresh
 	cand0, cand1     *keys.PrivateKey // cand0: not yet a candidate; cand1: listed
@@ -130,6 +131,15 @@ func newPrepWith(b *runner.Batch, n int, set world.Set) *prep {
 		w.FundGAS(snd.ScriptHash(), 500_0000_0000)
 		_, err = w.DeployFrom(snd, "processing", set["processing"], []any{w.H("neofs")})
 	}
+	if err == nil {
+		var d *world.Deployed
+		snd := world.Single(world.Key(b.Seed, b.Index, "c03-nonotarydeployer", n))
+		w.FundGAS(snd.ScriptHash(), 500_0000_0000)
+		d, err = w.DeployFrom(snd, "neofs-nonotary", set["neofs"], []any{true, w.H("processing"), pubs, []any{[]byte("InnerRingCandidateFee"), int64(10), []byte("WithdrawFee"), int64(10)}})
+		if err == nil {
+			p.nonotary = d.Hash
+		}
+	}
 	if err != nil {
 		b.Inconclusive("deploy main-chain contracts: " + err.Error())
 		w.Close()
@@ -172,7 +182,9 @@ func newPrepWith(b *runner.Batch, n int, set world.Set) *prep {
 		must(b, w.Invoke([]world.SignerSpec{world.G(p.u0), world.G(world.Single(p.admk))}, w.H("nns"), "setAdmin", "own.com", world.Hash160Of(p.admk)), "nns setAdmin") &&
 		must(b, w.Invoke([]world.SignerSpec{world.G(p.u0)}, w.GAS, "transfer", p.u0.ScriptHash(), w.H("neofs"), int64(100_0000_0000), nil), "deposit") &&
 		must(b, w.Invoke([]world.SignerSpec{world.G(world.Single(p.cand1))}, w.H("neofs"), "innerRingCandidateAdd", p.cand1.PublicKey().Bytes()), "candidate add") &&
-		must(b, w.Invoke([]world.SignerSpec{world.G(p.u0)}, w.GAS, "transfer", p.u0.ScriptHash(), w.H("alphabet0"), int64(1000), nil), "fund alphabet0")
+		must(b, w.Invoke([]world.SignerSpec{world.G(p.u0)}, w.GAS, "transfer", p.u0.ScriptHash(), w.H("alphabet0"), int64(1000), nil), "fund alphabet0") &&
+		must(b, w.Invoke([]world.SignerSpec{world.G(p.u0)}, w.GAS, "transfer", p.u0.ScriptHash(), p.nonotary, int64(100_0000_0000), nil), "deposit (no notary)") &&
+		must(b, w.Invoke([]world.SignerSpec{world.G(world.Single(p.cand1))}, p.nonotary, "innerRingCandidateAdd", p.cand1.PublicKey().Bytes()), "candidate add (no notary)")
 	if !ok {
 		w.Close()
 		return nil
@@ -205,6 +217,9 @@ func (p *prep) roleKeys(role string, n int) []*keys.PrivateKey {
 func (p *prep) instance(art string) util.Uint160 {
 	if art == "alphabet" {
 		return p.w.H("alphabet0")
+	}
+	if art == "neofs-nonotary" {
+		return p.nonotary
 	}
 	return p.w.H(art)
 }
